@@ -237,6 +237,8 @@ struct RTimer {
     clear_req_alive: bool,
     outcome: Option<bool>,
     legacy_cleared: bool,
+    /// old API: cleared when it had already reported (nothing is left that could observe the clear)
+    cleared_after_outcome: bool,
 }
 
 #[derive(Clone, Debug, Default)]
@@ -330,6 +332,7 @@ impl Reference {
                 if t.handle_alive {
                     t.handle_alive = false;
                     t.legacy_cleared = true;
+                    t.cleared_after_outcome = t.outcome.is_some();
                     out.sent.push((n, Which::Clear));
                 }
             }
@@ -602,8 +605,18 @@ impl RHost {
 pub struct TimeCheck;
 pub static C18: TimeCheck = TimeCheck;
 
+thread_local! {
+    /// the property a run is judged for (C18, or C13 when the history is part of the release check)
+    static JUDGED_FOR: std::cell::Cell<&'static str> = const { std::cell::Cell::new("C18") };
+}
+
 fn viol(clause: &str, msg: String) -> Violation {
-    Violation::new(format!("C18:{clause}"), msg)
+    let id = JUDGED_FOR.with(|j| j.get());
+    if id == "C18" {
+        Violation::new(format!("C18:{clause}"), msg)
+    } else {
+        Violation::new(format!("{id}:timers:{clause}"), msg)
+    }
 }
 
 #[derive(Clone, Copy, PartialEq, Eq, PartialOrd, Ord)]
@@ -616,9 +629,21 @@ struct Fire {
 impl TimeCheck {
     fn gen(&self, rng: &mut Rng, thorough: bool) -> TScn {
         let host = *rng.pick(&[THost::Direct, THost::Direct, THost::Core, THost::Bridge]);
-        let legacy_ok = host != THost::Direct;
         let ntimers = rng.range(1, if thorough { 6 } else { 4 }) as u32;
         let steps = rng.range(4, if thorough { 60 } else { 30 });
+        self.gen_with(rng, host, ntimers, steps, (1, 3))
+    }
+
+    /// long set/clear histories, mostly through the old capability API (used by the release check C13)
+    pub fn gen_history(&self, rng: &mut Rng, thorough: bool) -> TScn {
+        let host = *rng.pick(&[THost::Core, THost::Bridge]);
+        let ntimers = rng.range(2, if thorough { 40 } else { 12 }) as u32;
+        let steps = rng.range(8, if thorough { 400 } else { 90 });
+        self.gen_with(rng, host, ntimers, steps, (2, 3))
+    }
+
+    fn gen_with(&self, rng: &mut Rng, host: THost, ntimers: u32, steps: u64, legacy_share: (u64, u64)) -> TScn {
+        let legacy_ok = host != THost::Direct;
         let mut actions = vec![];
         let mut r = Reference::default();
         let mut started = 0u32;
@@ -641,10 +666,10 @@ impl TimeCheck {
             let a = match pick {
                 0 => {
                     started += 1;
-                    let api = if legacy_ok && rng.chance(1, 3) { Api::Legacy } else { Api::Command };
+                    let api = if legacy_ok && rng.chance(legacy_share.0, legacy_share.1) { Api::Legacy } else { Api::Command };
                     let kind = if rng.chance(1, 2) { Kind::After } else { Kind::At };
                     let a = TAction::Start { n: started, api, kind, clear_at_once: rng.chance(1, 6) };
-                    r.timers.insert(started, RTimer { api, st: RSt::Done, handle_alive: true, main_req_alive: true, main_answered: false, clear_req_alive: false, outcome: None, legacy_cleared: false });
+                    r.timers.insert(started, RTimer { api, st: RSt::Done, handle_alive: true, main_req_alive: true, main_answered: false, clear_req_alive: false, outcome: None, legacy_cleared: false, cleared_after_outcome: false });
                     a
                 }
                 1 => TAction::Clear { n },
@@ -703,6 +728,27 @@ impl Check for TimeCheck {
     }
 
     fn execute(&self, s: &TScn, cov: &mut Cov) -> Result<RunInfo, Violation> {
+        run_scn(s, cov, "C18")
+    }
+
+    fn shrink(&self, s: &TScn) -> Vec<TScn> {
+        shrink_scn(s)
+    }
+}
+
+/// One timer history against the real crux_time. Judged for C18 (ids, requests, outcomes) or, as part
+/// of C13, additionally for what the process-wide set of cleared timer ids keeps.
+pub fn run_scn(s: &TScn, cov: &mut Cov, judged_for: &'static str) -> Result<RunInfo, Violation> {
+    JUDGED_FOR.with(|j| j.set(judged_for));
+    let r = run_scn_inner(s, cov, judged_for != "C18");
+    JUDGED_FOR.with(|j| j.set("C18"));
+    r
+}
+
+fn run_scn_inner(s: &TScn, cov: &mut Cov, occupancy: bool) -> Result<RunInfo, Violation> {
+    {
+        let cleared_base = crux_time::verif_cleared_timer_ids_len();
+        let mut leak_reported = false;
         let mut host = RHost::new(s.host);
         let mut shell = ShellSide::default();
         let mut r = Reference::default();
@@ -744,6 +790,7 @@ impl Check for TimeCheck {
                         clear_req_alive: false,
                         outcome: None,
                         legacy_cleared: false,
+                        cleared_after_outcome: false,
                     };
                     if *api == Api::Legacy {
                         if *clear_at_once {
@@ -910,7 +957,11 @@ impl Check for TimeCheck {
                 // known finding territory: the old API notifies the shell of a clear for a timer it never requested
                 if let Some(p) = out.errors.iter().position(|e| e.starts_with("Clear for unknown timer id")) {
                     out.errors.remove(p);
-                    cov.tolerate(viol("legacy_clear_before_request_sends_clear", format!("step {si}: legacy timer {n} was cleared before it was ever requested, yet a Clear request for its id went to the shell")))?;
+                    if occupancy {
+                        // C18's business (listed there), not judged in a release run
+                    } else {
+                        cov.tolerate(viol("legacy_clear_before_request_sends_clear", format!("step {si}: legacy timer {n} was cleared before it was ever requested, yet a Clear request for its id went to the shell")))?;
+                    }
                 }
             }
             if let Some(e) = out.errors.first() {
@@ -967,6 +1018,21 @@ impl Check for TimeCheck {
                     heap.push(std::cmp::Reverse(Fire { at: deadline, seq, n: *n }));
                 }
             }
+            if occupancy {
+                // the set of cleared ids holds an id from `clear` until the timer's future is next
+                // polled: bounded by the cleared timers whose future still exists
+                let kept = crux_time::verif_cleared_timer_ids_len().saturating_sub(cleared_base);
+                let live = r.timers.values().filter(|t| t.api == Api::Legacy && t.legacy_cleared && t.outcome.is_none()).count();
+                let after = r.timers.values().filter(|t| t.api == Api::Legacy && t.cleared_after_outcome).count();
+                cov.bump("probe:cleared_timer_set_read");
+                if kept > live + after {
+                    return Err(viol("cleared_id_set_keeps_observed_clear", format!("step {si} ({act:?}) on {:?}: the process-wide set of cleared timer ids holds {kept} ids of this history; {live} cleared timers have not run since, {after} were cleared after they had reported - the rest were observed by their timer and should be gone", s.host)));
+                }
+                if kept > live && !leak_reported {
+                    leak_reported = true;
+                    cov.tolerate(viol("cleared_id_set_keeps_finished_timer", format!("step {si} ({act:?}) on {:?}: the process-wide set of cleared timer ids holds {kept} ids of this history, only {live} cleared timers still have a future that could remove theirs (clearing a timer of the old API after it has reported leaves its id in the set for the life of the process)", s.host)))?;
+                }
+            }
             let pending = r.timers.values().filter(|t| matches!(t.st, RSt::Requested | RSt::ClearSent | RSt::ClearWaiting)).count();
             max_pending = max_pending.max(pending);
             cov.trace(&format!("{:?}{:?}", out.sent, out.outcomes));
@@ -989,8 +1055,10 @@ impl Check for TimeCheck {
         cov.add("sim_time_ms", sim_time.max(0) as u64);
         Ok(RunInfo { shape, nontrivial: max_pending >= 2 && faults > 0, discarded: false })
     }
+}
 
-    fn shrink(&self, s: &TScn) -> Vec<TScn> {
+pub fn shrink_scn(s: &TScn) -> Vec<TScn> {
+    {
         let mut out = vec![];
         let n = s.actions.len();
         if n > 1 {
